@@ -572,3 +572,135 @@ Proof.
   pose proof (conserved_run sigma _ _ (conserved_init nw Hnw) H) as (_&_&B).
   specialize (B (t, m)). unfold balanced in B. lia.
 Qed.
+
+(* ------------------------------------------------------------------ stamps are unique *)
+(* worker i stamps (i, 0), (i, 1), ... : no stamp is ever issued twice *)
+Definition stamp_ok (i : wid) (w : worker) : Prop :=
+  Forall (fun e => m_w (snd e) = i /\ m_seq (snd e) < w_nsent w) (w_sentlog w) /\
+  NoDup (map (fun e => m_seq (snd e)) (w_sentlog w)).
+
+Definition stamps_ok (ns : list node) : Prop :=
+  forall i w, nth_error (map n_w ns) i = Some w -> stamp_ok i w.
+
+Lemma map_nw_push w c ns : map n_w (push_cmd w c ns) = map n_w ns.
+Proof. unfold push_cmd. revert w. induction ns as [|a ns IH]; intros [|w]; simpl; auto. f_equal. apply IH. Qed.
+
+Lemma map_nw_fold_push {A} (mk : A -> cmd) (wof : A -> wid) l : forall ns,
+  map n_w (fold_left (fun ns a => push_cmd (wof a) (mk a) ns) l ns) = map n_w ns.
+Proof. induction l; intros ns; simpl; [reflexivity|]. rewrite IHl. apply map_nw_push. Qed.
+
+Lemma handle_event_nw nw ev e ns e' ns' :
+  handle_event nw ev (e, ns) = Good (e', ns') -> map n_w ns' = map n_w ns.
+Proof.
+  intros H. destruct ev; unfold handle_event in H; cbn -[Nat.modulo nodup] in H.
+  - revert H. match goal with |- context [@alookup ?A caller ?l] => destruct (@alookup A caller l) end; intros H; [|discriminate].
+    inversion H; subst. rewrite !map_nw_push. reflexivity.
+  - destruct (alookup target (e_router e)); [|discriminate]. inversion H; subst. apply map_nw_push.
+  - revert H. match goal with |- context [forallb ?f targets] => destruct (forallb f targets) end; intros H; [|discriminate].
+    inversion H; subst.
+    set (wof := fun t => match alookup t (e_router e) with Some w => w | None => 0 end).
+    apply (map_nw_fold_push (fun w => CQuery awaiter (filter (fun t => wof t =? w) targets)) (fun w => w)).
+  - destruct (alookup awaiter (e_pending e)) as [pa|].
+    + destruct (match results with [] => None | (t, _) :: _ => alookup t (e_router e) end) as [w|].
+      * destruct (sremove w (pa_expected pa)).
+        -- destruct (alookup awaiter (e_router e)) as [aw|]; [|discriminate]. inversion H; subst. apply map_nw_push.
+        -- inversion H; subst. reflexivity.
+      * inversion H; subst. reflexivity.
+    + destruct (alookup awaiter (e_router e)) as [aw|]; [|discriminate]. inversion H; subst. apply map_nw_push.
+  - inversion H; subst. reflexivity.
+  - inversion H; subst. reflexivity.
+Qed.
+
+Lemma handle_events_nw nw evs : forall e ns e' ns',
+  handle_events nw evs (e, ns) = Good (e', ns') -> map n_w ns' = map n_w ns.
+Proof.
+  induction evs as [|ev evs IH]; intros e ns e' ns' H; cbn [handle_events] in H.
+  - inversion H; subst. reflexivity.
+  - destruct (handle_event nw ev (e, ns)) as [[e1 ns1]|] eqn:E1; cbn [rbind] in H; [|discriminate].
+    apply handle_event_nw in E1. apply IH in H. congruence.
+Qed.
+
+Lemma nth_error_map_update {A B} (g : A -> B) l : forall n a' i,
+  nth_error (map g (update_nth n (fun _ => a') l)) i =
+  if i =? n then match nth_error l n with Some _ => Some (g a') | None => None end else nth_error (map g l) i.
+Proof.
+  induction l as [|a l IH]; intros n a' i.
+  - destruct n, i; simpl; try reflexivity. destruct (i =? n); reflexivity.
+  - destruct n, i; simpl; try reflexivity. apply IH.
+Qed.
+
+Lemma NoDup_app_one {A} (l : list A) x : NoDup l -> ~ In x l -> NoDup (l ++ [x]).
+Proof.
+  intros N H. induction l as [|a l IH]; simpl.
+  - constructor; [intros []|constructor].
+  - inversion N; subst. constructor.
+    + intros Hin. apply in_app_or in Hin. destruct Hin as [Hin|[Hin|[]]]; [contradiction|subst; apply H; left; reflexivity].
+    + apply IH; [assumption|]. intros Hin; apply H; right; exact Hin.
+Qed.
+
+Lemma stamps_step s a s' : stamps_ok (s_nodes s) -> sys_step s a = Good s' -> stamps_ok (s_nodes s').
+Proof.
+  intros Hs H. destruct a as [i k o|ks|d|c]; simpl in H.
+  - destruct (nth_error (s_nodes s) i) as [nd|] eqn:Ei.
+    + destruct (node_step i (s_clock s) k o nd) as [nd'|] eqn:Es; cbn [rbind] in H; [|discriminate].
+      inversion H; subst; clear H. simpl. intros j w Hj. rewrite nth_error_map_update in Hj.
+      destruct (j =? i) eqn:Eji.
+      * apply Nat.eqb_eq in Eji; subst j. rewrite Ei in Hj. inversion Hj; subst w; clear Hj.
+        assert (Hold: stamp_ok i (n_w nd)).
+        { apply Hs. rewrite nth_error_map, Ei. reflexivity. }
+        destruct (node_step_ghost _ _ _ _ _ _ Es) as (pre&new&_&_&_&C4&Hn).
+        destruct Hold as (F&N). unfold stamp_ok. rewrite C4.
+        destruct Hn as [(En&Ens)|(t&p&En&Ens)]; subst new.
+        -- rewrite app_nil_r, Ens. split; assumption.
+        -- rewrite Ens. split.
+           ++ apply Forall_app. split.
+              ** eapply Forall_impl; [|exact F]. intros e0 (A1&A2). split; [exact A1|lia].
+              ** constructor; [simpl; split; [reflexivity|lia]|constructor].
+           ++ rewrite map_app. simpl. apply NoDup_app_one; [exact N|].
+              intros Hin. apply in_map_iff in Hin. destruct Hin as (e0&E0&I0).
+              rewrite Forall_forall in F. destruct (F _ I0) as (_&Lt). lia.
+      * apply Hs. exact Hj.
+    + inversion H; subst. exact Hs.
+  - destruct (collect ks (s_nodes s)) as [evs ns] eqn:Ec.
+    destruct (handle_events (length (s_nodes s)) evs (s_env s, ns)) as [[e' ns']|] eqn:Eh; cbn [rbind] in H; [|discriminate].
+    inversion H; subst; clear H. simpl.
+    apply handle_events_nw in Eh.
+    pose proof (collect_totals ks (s_nodes s) (0, mkMsg 0 0 0)) as (_&_&_&_&_&M). rewrite Ec in M. simpl in M.
+    unfold stamps_ok. rewrite Eh, M. exact Hs.
+  - inversion H; subst. exact Hs.
+  - unfold client_step in H. destruct c.
+    + inversion H; subst. unfold stamps_ok. cbn -[Nat.modulo]. rewrite map_nw_push. exact Hs.
+    + inversion H; subst. unfold stamps_ok. simpl. rewrite map_nw_push. exact Hs.
+    + inversion H; subst. unfold stamps_ok. simpl. rewrite map_nw_push. exact Hs.
+    + destruct (alookup p (e_router (s_env s))); inversion H; subst; [|exact Hs].
+      unfold stamps_ok. simpl. rewrite map_nw_push. exact Hs.
+    + destruct (alookup p (e_router (s_env s))); inversion H; subst; [|exact Hs].
+      unfold stamps_ok. simpl. rewrite map_nw_push. exact Hs.
+Qed.
+
+Lemma stamps_run sigma : forall s s', stamps_ok (s_nodes s) -> run s sigma = Good s' -> stamps_ok (s_nodes s').
+Proof.
+  induction sigma as [|a sigma IH]; intros s s' Hc H; simpl in H.
+  - inversion H; subst. exact Hc.
+  - destruct (sys_step s a) as [s1|] eqn:E; cbn [rbind] in H; [|discriminate].
+    eapply IH; [eapply stamps_step; eassumption|exact H].
+Qed.
+
+(* C04: no stamp is issued twice — within a worker the sequence numbers of the send log are
+   pairwise distinct and below the worker's counter, and every stamp carries its worker's id, so
+   stamps of different workers differ too. Together with message_conservation: every message is
+   in exactly ONE place. *)
+Theorem stamps_unique : forall nw sigma s,
+  run (init nw) sigma = Good s ->
+  forall i nd, nth_error (s_nodes s) i = Some nd ->
+    NoDup (map (fun e => m_seq (snd e)) (w_sentlog (n_w nd))) /\
+    Forall (fun e => m_w (snd e) = i /\ m_seq (snd e) < w_nsent (n_w nd)) (w_sentlog (n_w nd)).
+Proof.
+  intros nw sigma s H i nd Hi.
+  assert (H0: stamps_ok (s_nodes (init nw))).
+  { intros j w Hj. unfold init in Hj. simpl in Hj.
+    apply nth_error_In in Hj. apply in_map_iff in Hj. destruct Hj as (nd0&E0&I0).
+    apply repeat_spec in I0. subst nd0 w. split; constructor. }
+  pose proof (stamps_run sigma _ _ H0 H) as Hs.
+  destruct (Hs i (n_w nd)) as (F&N); [rewrite nth_error_map, Hi; reflexivity|]. split; assumption.
+Qed.
